@@ -197,6 +197,10 @@ def reading(feature, seq):
         idx = [(a + i) % n for i in range(ln)]
         if s == -1:
             idx.reverse()
+        if ln == 0:
+            # a between-bases location: identified by the letter that follows it
+            out.append(((("^" + seq[a % n], s),), False))
+            continue
         out.append((tuple((seq[i], s) for i in idx), ln == n))
     return out
 
